@@ -550,6 +550,12 @@ fn full_alphabet() -> Vec<Op> {
             v.push(Op::Resize(n, x));
         }
     }
+    // requests far beyond the capacity, on both sides of the 16-bit length field's range (stack vector only:
+    // the heap vector would really allocate them)
+    if !HEAP {
+        v.push(Op::Resize(65536 + 2, 0));
+        v.push(Op::Resize((1usize << 32) + c, u64::MAX));
+    }
     // a fill value whose bytes all differ (a byte-wise fill would be visible)
     for n in [2, c / 2 + 1, c] {
         v.push(Op::Resize(n, 0x0123_4567_89AB_CDEF));
